@@ -660,7 +660,7 @@ def combine_fields(arrlist):
         raise ValueError('send at least one array')
 
     if len(arrlist) == 1:
-        return arrlist[0]
+        return arrlist[0].copy()
 
     num = arrlist[0].size
     descr = []
